@@ -63,7 +63,7 @@ def jobs(tier):
 
 def requirements(tier):
     req = {f"order:{k}": 20 for k in range(2, 13)}
-    req.update({"reuse:order": 100, "reuse:method": 100, "reuse:form": 100, "reuse:frame": 100, "reuse:settings-then-form-or-frame-assigned": 80,
+    req.update({"reuse:order": 100, "reuse:method": 100, "reuse:form": 100, "reuse:frame": 100, "reuse:settings-then-form-or-frame-assigned": 80, "reuse:converted-by-copy": 40,
                 "query-in-another-scale-than-the-table": 3000})
     req.update({
         "window-checked": 20000, "node-exact-lagrange": 5000, "node-linear": 1000, "poly-reproduced": 10000,
@@ -367,7 +367,24 @@ def reuse_case(ctx, job, idx, rng, st):
                 nodes.append(StateVector(list(r) + list(v), Date(mjd0, 60.0 * i, scale="TAI"), "cartesian", "EME2000"))
             eph = Ephem(nodes, order=8)
             eph.interpolate(Date(mjd0, 90.0, scale="TAI"))
-            if scen == "form":
+            by_copy = rng.random() < 0.4
+            if by_copy:
+                # the converted ephemeris is a copy (Ephem.copy(form=) / copy(frame=)): judged like the in-place route below,
+                # and the original keeps its labels and its numbers
+                ctx.count("reuse:converted-by-copy")
+                orig, node0 = eph, np.asarray(eph[3], dtype=float).copy()
+                if scen == "form":
+                    target = rng.choice(["spherical", "keplerian", "equinoctial", "cylindrical"])
+                    eph = orig.copy(form=target)
+                else:
+                    target = rng.choice(["MOD", "TOD", "TEME", "G50"])
+                    eph = orig.copy(frame=target)
+                ctx.expect(eph is not orig and (orig.form.name, orig.frame.name) == ("cartesian", "EME2000") and bool(np.array_equal(np.asarray(orig[3], dtype=float), node0)),
+                           "C09/reuse-copy-changes-the-original-ephemeris", dict(w, target=target, original_now=(orig.form.name, orig.frame.name)),
+                           f"Ephem.copy({scen}={target}) changed the ephemeris it was called on")
+                if (eph.method, eph.order) != (orig.method, orig.order):
+                    ctx.count("reuse:copy-does-not-carry-the-interpolation-settings (recorded, consistent with what the copy reports)")
+            elif scen == "form":
                 target = rng.choice(["spherical", "keplerian", "equinoctial", "cylindrical"])
                 eph.form = target
             else:
